@@ -39,6 +39,9 @@ pub struct Case {
     pub client_read: ReadScript,
     pub backend_write: WriteScript,
     pub backend_read: ReadScript,
+    /// reproducer of a known finding: nothing is excluded
+    #[serde(default)]
+    pub strict: bool,
 }
 
 const BOUNDARIES: &[usize] = &[16393, 16384, 32768, 65535, 65536, 9, 4096];
@@ -114,7 +117,7 @@ pub fn strategy(max: usize) -> impl Strategy<Value = Case> {
                     Req { req_len, req_framing, resp_len, resp_framing }
                 })
                 .collect();
-            Case { seed, reqs, client_write: cw, client_read: cr, backend_write: bw, backend_read: br }
+            Case { seed, reqs, client_write: cw, client_read: cr, backend_write: bw, backend_read: br, strict: false }
         })
 }
 
@@ -122,7 +125,41 @@ fn near_boundary(n: usize) -> bool {
     BOUNDARIES.iter().any(|b| (n as i64 - *b as i64).abs() <= 9)
 }
 
+/// a body of a million chunks or more (thorough tier only: megabytes in chunks of one or two bytes)
+fn million_chunks(case: &Case) -> bool {
+    let chunks = |len: usize, f: &BodyFraming| match f {
+        BodyFraming::Chunked(sizes) if !sizes.is_empty() => len * sizes.len() / sizes.iter().sum::<usize>().max(1),
+        _ => 0,
+    };
+    case.reqs.iter().any(|r| chunks(r.req_len, &r.req_framing) >= 1_000_000 || chunks(r.resp_len, &r.resp_framing) >= 1_000_000)
+}
+
 pub fn scenario(lab: &mut HttpLab, case: &Case) -> CheckResult {
+    // Known finding (same root as C14/frame-storm-session-closed): a body of millions of tiny chunks keeps
+    // both sockets ready while sozu is busy, one readiness pass reaches MAX_LOOP_ITERATIONS and sozu closes
+    // the session in the middle of the transfer; it counts every such kill in `http.infinite_loop.error`.
+    // Only that shape is excluded, and only when sozu's own counter says the budget ended the session.
+    if !million_chunks(case) {
+        return scenario_inner(lab, case);
+    }
+    let before = lab.worker.counter("http.infinite_loop.error").unwrap_or(0);
+    match scenario_inner(lab, case) {
+        Err(f) if lab.worker.alive() && lab.worker.counter("http.infinite_loop.error").unwrap_or(0) > before => {
+            if case.strict {
+                Err(Failure::new("C01/session-ended-by-loop-iteration-budget:body-of-a-million-chunks", format!("the session loop's iteration budget ended the session in the middle of the transfer ({}: {})", f.signature, f.message)))
+            } else {
+                let mut rep = CaseReport::default();
+                rep.excluded_known += 1;
+                rep.class("session_ended_by_loop_iteration_budget(known)");
+                rep.class("lab_dirty");
+                Ok(rep)
+            }
+        }
+        other => other,
+    }
+}
+
+fn scenario_inner(lab: &mut HttpLab, case: &Case) -> CheckResult {
     let mut rep = CaseReport::default();
     rep.class_if(case.client_write.total_pause_ms() > 4000 || case.backend_write.total_pause_ms() > 4000, "slow_drip_longer_than_front_timeout");
     if !lab.worker.alive() {
@@ -276,7 +313,7 @@ fn child(args: &Args, total: u64) -> Stats {
             }
         };
         let r = scenario(&mut lab, case);
-        *labcell.borrow_mut() = if r.is_ok() { Some(lab) } else { None };
+        *labcell.borrow_mut() = if matches!(&r, Ok(rep) if !rep.classes.iter().any(|c| c == "lab_dirty")) { Some(lab) } else { None };
         r
     };
     let check = |case: &Case| -> CheckResult {
